@@ -73,6 +73,9 @@ pub fn battery<T: Subject>(v: &T, model: &Bits, strength: Strength, what: &str) 
     if v.len() > BitVector::capacity(v) {
         return Err(viol(what, "capacity", format!("len {} > capacity {}", v.len(), BitVector::capacity(v))));
     }
+    expect_eq!(what, "is_empty", v.is_empty(), n == 0, v);
+    expect_eq!(what, "first", v.first().map(unbit), model.0.first().copied(), v);
+    expect_eq!(what, "last", v.last().map(unbit), model.0.last().copied(), v);
     // --- raw-storage readers (these see padding pollution)
     expect_eq!(what, "is_zero", v.is_zero(), model.is_zero(), v);
     expect_eq!(what, "to_vec(Little)", v.to_vec(Endianness::Little), model.to_bytes_le(), v);
@@ -111,9 +114,6 @@ pub fn battery<T: Subject>(v: &T, model: &Bits, strength: Strength, what: &str) 
     }
 
     // ------------------------------------------------------------------ full battery
-    expect_eq!(what, "is_empty", v.is_empty(), n == 0, v);
-    expect_eq!(what, "first", v.first().map(unbit), model.0.first().copied(), v);
-    expect_eq!(what, "last", v.last().map(unbit), model.0.last().copied(), v);
     expect_eq!(what, "iter", v.iter().map(unbit).collect::<Vec<bool>>(), model.0.clone(), v);
     expect_eq!(what, "iter.rev", v.iter().rev().map(unbit).collect::<Vec<bool>>(), model.0.iter().rev().copied().collect::<Vec<bool>>(), v);
     let mut be = model.to_bytes_le();
